@@ -7,7 +7,7 @@ namespace LLFree
 open Prog
 
 section
-variable {c : Cfg} {H : Nat → Prop} {P : Nat → Nat} {R : Nat → Prop} {m : Mem}
+variable {c : Cfg} {H : Nat → Nat} {P : Nat → Nat} {R : Nat → Prop} {m : Mem}
 
 /-- updating an unreserved tree (no slot points to it), any ghost state -/
 theorem UpperInv.set_unreserved' (inv : UpperInv c H P R m) (i : Nat) (t t' : Tree) (ht : m.trees[i]? = some t)
@@ -28,7 +28,7 @@ theorem tree_lt_of_block (okg : GeomOk c.geom) (f n : Nat) (hn : 0 < n) (h : f +
   omega
 
 /-- outcome of the lower allocation inside tree `t0` -/
-def LowerGot (c : Cfg) (H : Nat → Prop) (P : Nat → Nat) (R : Nat → Prop) (m : Mem) (t0 order : Nat) (frame : Option Nat)
+def LowerGot (c : Cfg) (H : Nat → Nat) (P : Nat → Nat) (R : Nat → Prop) (m : Mem) (t0 order : Nat) (frame : Option Nat)
     (r : Res Nat) (m' : Mem) : Prop :=
   match r with
   | .ok f => f / c.geom.treeFrames = t0 ∧ f % 2 ^ order = 0 ∧ GetAllowed c m f order ∧ GetPost c m m' f order ∧
